@@ -16,7 +16,7 @@ from .c07 import blocks_of
 
 ID = "C11"
 GUARD_KERNELS = True
-SHRINK_LISTS = ("ops", "faults", ("files", "nsamps"))
+SHRINK_LISTS = ("ops", "faults", "pre", ("files", "nsamps"))
 SHRINK_MIN = {"nchans": 1, "nbits": 8, "gulp": 1, "nbins": 1, "nints": 1, "nbands": 1, "n": 10}
 C = 299792458.0
 TSAMP = 0.001
@@ -69,6 +69,9 @@ def generate(rng, tier) -> dict:
         for _ in range(2):
             ops.append({"gulp": max(1, rng.choice([1, 2, 7, rng.randint(1, N), N, N + 3, max(1, N // 3), max(1, N // 4)]))})
         sc["ops"] = ops
+        from .c06 import gen_pre
+
+        sc["pre"] = gen_pre(rng, N) if rng.random() < 0.25 else []
         if rng.random() < 0.2:
             sc["faults"].append({"kind": rng.choice(["R1", "R2"]), "op": rng.randrange(2), "call": rng.choice([0, 1, 2, 3]), "arg": rng.randint(1, 40)})
     else:
@@ -109,6 +112,10 @@ def fixup(sc):
         if (N * nch) // (sc["nbands"] * sc["nints"] * sc["nbins"]) < 10:
             return None
         for o in sc["ops"]:
+            o["gulp"] = max(1, o["gulp"])
+        for o in sc.get("pre", []):
+            o["start"] = max(0, min(o["start"], N - 1))
+            o["nsamps"] = max(1, min(o["nsamps"], N - o["start"]))
             o["gulp"] = max(1, o["gulp"])
         sc["faults"] = [x for x in sc["faults"] if 0 <= x.get("op", -1) < len(sc["ops"])]
     else:
@@ -269,6 +276,11 @@ def execute(sc, ctx) -> None:
         Xd = np.stack([fs.samples[delays[c] : delays[c] + nfold, c] for c in range(nchans)], axis=1)
         sums, cnts, pbin, _ = cell_model(Xd, N, nbins, nints, nbands, np.float32(reader.header.tsamp), p32, a32, ctx)
         cubes = []
+        if sc.get("pre"):
+            from .c06 import run_pre
+
+            sim.begin_op(-1, budget=1000000)
+            run_pre(reader, sc["pre"], ctx)
         for i, op in enumerate(sc["ops"]):
             gulp = op["gulp"]
             g_eff = max(2 * md, gulp)
